@@ -2,10 +2,10 @@ CONSTANTS
   PW = 4
   LW = 5
   CW = 6
-  MaxRows = 2
-  DPc1 = {0, 1, 14, 15, 16, 17, 30, 31, 45, 46, 1000}
-  DLine1 <- RealDL
-  DCol1 <- RealDC
+  MaxRows = 1
+  DPc1 = {0, 1, 15, 16, 31, 500}
+  DLine1 <- QuickDL
+  DCol1 <- QuickDC
   DPc2 = {16}
   DLine2 <- RealDL2
   DCol2 <- RealDC2
